@@ -406,7 +406,12 @@ def main(ctx):
         if rc != 0 or not os.path.exists(model):
             model = None
         rc, o, e = sh(["lake", "build", "GojaModel.C10.Props"], cwd=LEAN, timeout=1200)
-    ctx.audit("GojaModel.C10.Props", expect_min=32)
+    ctx.audit("GojaModel.C10.Props", expect_min=48)
+    tie_ok = have_tie and not any("Tie.lean" in (e.get("file") or "") for e in errs)
+    if tie_ok:
+        ctx.audit("GojaModel.C10.Tie", expect_min=2)
+    elif not have_tie:
+        ctx.obligation("tie.regen", "tie", False, "extract/c10.go missing or the decision skeleton could not be regenerated")
     if not quick:
         ctx.leanchecker("GojaModel.C10.Props")
     ctx.log("lean built + audited")
